@@ -4,7 +4,9 @@ from pyvc import sym
 from pyvc.sym import (VInt, VBool, VNone, VStr, VElem, VSeq, VList, VTuple, VRef, VCallable, VAw,
                       K_ELEM, K_MDE, K_MD, K_AW, K_INT, K_OBJ)
 from pyvc.state import ListCell, DictCell, SetCell, PyRaise
-from pyvc.contract import Clause
+from pyvc.contract import Clause, Contract
+from pyvc.state import State
+CORE = "streamz/core.py"
 from pyvc.interp import NONE
 from pyvc.loops import LoopSpec
 from .core_common import NodeUpdate, R
@@ -172,4 +174,94 @@ class SliceUpdateNoEnd(SliceUpdate):
     end_is_none = True
 
 
-ALL = [SlidingWindowUpdate, CollectUpdate, CollectFlush, SliceUpdate, SliceUpdateNoEnd]
+class SliceInit(Contract):
+    """slice.__init__(upstream, start, end, step): the fields the step contract quantifies over are what the caller wrote
+    (None meaning 0 / no end / 1), counting starts at position 0, and the invariant of the step contract is established:
+    a node whose window is already over (end == 0) is detached before the first element can reach it."""
+    file = CORE
+    files = [CORE]
+    qual = 'slice.__init__'
+    props = ['C01', 'C15']
+    inline = ('slice._check_end',)
+    given = (True, True, True)          # which of start / end / step are integers (the others are None)
+    harness = None
+
+    def __init__(self):
+        self.name = 'slice.__init__[%s]' % ', '.join('%s=%s' % (n, 'int' if g else 'None') for n, g in zip(('start', 'end', 'step'), self.given))
+        Contract.__init__(self)
+
+    def build(self, I):
+        st = State()
+        I.st = st
+        g = st.ghost
+        args = {}
+        for n, giv in zip(('start', 'end', 'step'), self.given):
+            if giv:
+                v = z3.Int('arg_' + n)
+                st.assume(v >= 0)        # negative indices: ValueError, clause below
+                args[n] = VInt(v)
+            else:
+                args[n] = NONE
+            g['arg_' + n] = args[n]
+        up = VRef(z3.Const('upstream', sym.Obj), 'Stream')
+        g['detached'] = VBool(False)
+        g['base_init_calls'] = VInt(0)
+        selfv = st.new_obj('slice', {})
+        self.pre_args = dict(args, self=selfv, upstream=up)
+        self.pre_state = st.snapshot()
+        g['_pre'] = (self.pre_state, self.pre_args)
+        I.contract_pre = self.pre_state
+        I.contract_pre_frame = self.pre_frame(I)
+        return selfv, [up], dict(args)
+
+    def summaries(self):
+        def base_init(I, recv, args, kwargs):
+            g = I.st.ghost
+            selfv, up = args[0], args[1]
+            I.set_attr(selfv, 'upstreams', VTuple([up]))
+            g['base_init_calls'] = VInt(g['base_init_calls'].t + 1)
+            g['base_upstream_ok'] = VBool(I.eq(up, self.pre_args['upstream']))
+            return NONE
+
+        def remove_downstream(I, recv, args, kwargs):
+            I.st.ghost['detached'] = VBool(z3.And(I.eq(recv, self.pre_args['upstream']), I.eq(args[0], self.pre_args['self'], identity=True)))
+            return NONE
+
+        def kw_pop(I, recv, args, kwargs):
+            return args[1] if len(args) > 1 else NONE
+        return {'Stream.__init__': base_init, 'Stream._remove_downstream': remove_downstream, 'str.pop': kw_pop}
+
+    def spec_funcs(self):
+        def implies_(I, a, b):
+            return VBool(z3.Implies(I.truth(a), I.truth(b)))
+
+        def iff_(I, a, b):
+            return VBool(I.truth(a) == I.truth(b))
+        return {'implies': implies_, 'iff': iff_}
+
+    def clauses(self):
+        s, e, t = self.given
+        cl = [Clause('C01.counting_starts_at_position_0', ['C01'], text='self.state == 0'),
+              Clause('C01.start_is_what_the_caller_wrote', ['C01'], text='self.star == %s' % ('arg_start' if s else '0')),
+              Clause('C01.step_is_what_the_caller_wrote', ['C01'],
+                     text='self.step == (arg_step if arg_step != 0 else 1)' if t else 'self.step == 1',
+                     note='step=None and step=0 both mean 1 (`step or 1`)'),
+              Clause('C01.end_is_what_the_caller_wrote', ['C01'], text='self.end == arg_end' if e else 'self.end is None'),
+              Clause('C15.attached_to_the_upstream_by_the_base_constructor', ['C15', 'C01'], text='base_init_calls == 1 and base_upstream_ok'),
+              Clause('C15.a_window_that_is_already_over_is_detached_at_construction', ['C15', 'C01'],
+                     text='iff(detached, arg_end == 0)' if e else 'not detached',
+                     note='list[start:0:step] is empty: with end == 0 not even the first element may pass, so the node must not '
+                          'stay attached until its first update (the step contract assumes state < end on entry)'),
+              Clause('C01.nonnegative_arguments_are_accepted', ['C01'], when='raise', text='False')]
+        return cl
+
+
+def _mk_slice_init(given):
+    return type('SliceInit_' + ''.join('i' if g else 'n' for g in given), (SliceInit,), {'given': given})
+
+
+SLICE_INITS = [_mk_slice_init((a, b, c)) for a in (True, False) for b in (True, False) for c in (True, False)]
+for _c in SLICE_INITS:
+    globals()[_c.__name__] = _c
+
+ALL = [SlidingWindowUpdate, CollectUpdate, CollectFlush, SliceUpdate, SliceUpdateNoEnd] + SLICE_INITS
